@@ -6,14 +6,14 @@ CONSTANTS
   MaxQ = 2
   CGS = 5
   Depth = 9
-  MaxReplies = 5
+  MaxReplies = 6
   MaxReplies2 = 4
   MaxDup = 1
   MaxForeign = 1
   MaxLate = 1
   QuorumSet = {"One", "N2", "Maj", "All"}
-  Triples = {{1, 2, 13}}
-  SplitSizes = {2, 3}
+  Triples = {{1, 2, 13}, {13, 14, 15}}
+  SplitSizes = {2, 3, 4}
   AllCfgs = FALSE
   Record = FALSE
   KnownMask = {"C05-merge-bypasses-target", "C05-mixed-kinds-first-record-dictates", "C05-equal-counter-scratchpad-first-wins"}
